@@ -162,6 +162,11 @@ func (t logTicker) TicksAtLevel(level int) interface{} {
 		// ticks, but round out so we can fill in
 		// minor ticks outside of the major ticks.
 		firstN, lastN, _ := t.s.spacingAtLevel(0, true)
+		// Use the same slack as spacingAtLevel so that the
+		// major ticks are a subset of the minor ticks.
+		lmin, lmax := math.Log(min), math.Log(max)
+		slack := (lmax - lmin) * 1e-10
+		min, max := math.Exp(lmin-slack), math.Exp(lmax+slack)
 		for n := firstN; n <= lastN; n++ {
 			tick := math.Pow(float64(t.s.Base), n)
 			step := tick
